@@ -29,13 +29,15 @@ SkipNames == {".git", ".hg", ".svn", ".venv", "venv", "env", ".env", "__pycache_
               "bower_components", "target", ".idea", ".vscode", ".cache", ".local", "vendor", "site-packages"}
 \* representatives: ignored names, *.egg-info, near misses, plain
 DirAlphabet == {".git", "build", ".venv", "node_modules", "x.egg-info", "site-packages",
-                "builds", "egg-info", "envs", "pkg", "tests"}
+                "builds", "egg-info", "envs", "pkg", "tests",
+                "pkg_x"}      \* a name that merely STARTS like the excluded directory
 EggInfo == {"x.egg-info"}
 Ignored(d) == d \in SkipNames \/ d \in EggInfo
 
 FileAlphabet == {"conftest.py", "test_a.py", "a_test.py", "test_.py", "_test.py", "test_a.txt", "atest.py",
-                 "test.py", "conftest.pyi", "testa.py"}
-NameOk(f) == f \in {"conftest.py", "test_a.py", "a_test.py", "test_.py", "_test.py"}
+                 "test.py", "conftest.pyi", "testa.py",
+                 "pkg_test.py"}   \* a test file whose NAME starts like the excluded directory
+NameOk(f) == f \in {"conftest.py", "test_a.py", "a_test.py", "test_.py", "_test.py", "pkg_test.py"}
 
 DirSeqs == {<<>>} \cup { <<a>> : a \in DirAlphabet } \cup { <<a, b>> : a \in DirAlphabet, b \in DirAlphabet }
 Paths == { [dirs |-> d, file |-> f] : d \in DirSeqs, f \in FileAlphabet }
@@ -73,6 +75,11 @@ PyIndexed(p, ex, fm) ==
     /\ ~Excluded(p, ex)
     /\ ~Faulty(p, fm)
 
+\* "plus the modules those files pull in": tests/conftest.py star-imports tests/helpermod.py (not a pytest file
+\* name); the helper is indexed exactly when its importer is
+Importer == [dirs |-> <<"tests">>, file |-> "conftest.py"]
+PyPulled(ex, fm) == PyIndexed(Importer, ex, fm)
+
 ImplIndexed(p, loc, ex, fm, D) ==
     /\ PyIndexed(p, ex, fm)
     /\ ("skip_applies_to_absolute_path" \in D => \A d \in SeqSetD(loc.above) \cup {loc.name} : ~Ignored(d))
@@ -94,13 +101,15 @@ RepairedRelocationInvariant ==
     \A l2 \in RootLocs : \A p \in Paths : ImplIndexed(p, loc, ex, fm, {}) = ImplIndexed(p, l2, ex, fm, {})
 FaultIsolation ==
     \A p \in Paths : ~Faulty(p, fm) => (PyIndexed(p, ex, fm) = PyIndexed(p, ex, "none"))
-RepairedEqualsR == \A p \in Paths : ImplIndexed(p, loc, ex, fm, {}) = PyIndexed(p, ex, fm)
+RepairedEqualsR == /\ \A p \in Paths : ImplIndexed(p, loc, ex, fm, {}) = PyIndexed(p, ex, fm)
+                   /\ ImplIndexed(Importer, loc, ex, fm, {}) = PyPulled(ex, fm)
 
 EmitCase ==
     PrintT("CASE " \o ToJson([loc |-> loc, ex |-> ex, fm |-> fm,
                               py |-> { p \in Paths : PyIndexed(p, ex, fm) },
                               impl |-> { p \in Paths : ImplIndexed(p, loc, ex, fm, DevsOn) },
                               nfiles |-> Cardinality(Paths),
+                              pulledPy |-> PyPulled(ex, fm), pulledImpl |-> ImplIndexed(Importer, loc, ex, fm, DevsOn),
                               thirdImpl |-> ImplThird(loc, DevsOn), thirdPy |-> FALSE,
                               blame |-> { d \in DevsOn :
                                             { p \in Paths : ImplIndexed(p, loc, ex, fm, DevsOn \ {d}) } = { p \in Paths : PyIndexed(p, ex, fm) }
